@@ -328,7 +328,7 @@ def new_slot():
     return 1 + next(_RUN_SEQ) % (10**9 - 1)
 
 
-def run_real_binary(binary, argv, files, env_extra=None, tz='UTC', stdout_to=None, timeout=20, home_config=None, stable_dir=False, modes=None, drop_env=(), slot=None, links=None):
+def run_real_binary(binary, argv, files, env_extra=None, tz='UTC', stdout_to=None, timeout=20, home_config=None, stable_dir=False, modes=None, drop_env=(), slot=None, links=None, fifos=None):
     """run the untagged binary as a sub-process in a scratch directory with the given files"""
     # stable_dir: the same scratch path on every call of this process ($HOME is an input of the program: `gen` prints it)
     base = os.path.join(scratch_root(), 'real-%07d-%09d' % (os.getpid(), 0 if stable_dir else slot if slot is not None else new_slot()))
@@ -360,6 +360,24 @@ def run_real_binary(binary, argv, files, env_extra=None, tz='UTC', stdout_to=Non
             os.chmod(os.path.join(work, name), mode)
         for name, target in (links or {}).items():
             os.symlink(target, os.path.join(work, name) if not name.startswith('~/') else os.path.join(home, name[2:]))
+        feeders = []
+        for name, data in (fifos or {}).items():
+            # a named pipe that delivers `data` once a reader opens it (its size, as stat reports it, is 0)
+            path = os.path.join(work, name)
+            os.mkfifo(path, 0o666)
+            open_up(path)
+            def feed(path=path, data=data):
+                try:
+                    fd = os.open(path, os.O_WRONLY)
+                    try:
+                        os.write(fd, data)
+                    finally:
+                        os.close(fd)
+                except OSError:
+                    pass
+            th = __import__('threading').Thread(target=feed, daemon=True)
+            th.start()
+            feeders.append((th, path))
         args = [binary] + [a.decode('utf-8', 'surrogateescape') if isinstance(a, bytes) else a for a in argv]
         if stdout_to == 'full':
             with open('/dev/full', 'wb') as sink:
@@ -382,6 +400,15 @@ def run_real_binary(binary, argv, files, env_extra=None, tz='UTC', stdout_to=Non
             _, err = p.communicate(timeout=timeout)
             return p.returncode, b'', err
         p = subprocess.run(args, cwd=work, env=env, capture_output=True, timeout=timeout, **as_scratch_user())
+        for th, path in feeders:
+            if th.is_alive():
+                # nobody opened the pipe: open it ourselves so that the feeder can finish
+                try:
+                    fd = os.open(path, os.O_RDONLY | os.O_NONBLOCK)
+                    th.join(1)
+                    os.close(fd)
+                except OSError:
+                    pass
         return p.returncode, p.stdout, p.stderr
     finally:
         shutil.rmtree(base, ignore_errors=True)
